@@ -18,7 +18,7 @@ CONSTANTS
   MaxSeq = 2
   MaxClock = 0
   MaxAcc = 2
-  Family = "C20"
+  Family = "C20q"
 CONSTRAINT Bound
 INVARIANTS
   C18_Balance
